@@ -41,6 +41,19 @@ POOLS = {
 RAW_BASE = 0xE000
 
 
+def no_tqdm_monitor():
+    """tqdm starts a monitor thread in tqdm.__new__ (even for disabled bars) the first time sqlfluff lints in
+    this process.  The replay tier runs in the parent, which then forks the shard workers; forking a process
+    with a live thread that periodically takes tqdm's lock can leave that lock held for ever in the children
+    (observed under heavy load: all 16 workers asleep in futex_wait for an hour).  No monitor thread, no problem."""
+    try:
+        import tqdm
+
+        tqdm.tqdm.monitor_interval = 0
+    except Exception:  # noqa
+        pass
+
+
 def raw(b: int) -> str:
     return chr(RAW_BASE + b)
 
